@@ -756,7 +756,7 @@ async fn get_serverids(s: &SharedServerIds) -> ServerIds {
 }
 
 fn to_array(mac: &[u8]) -> Option<[u8; 6]> {
-    mac[0..6].try_into().ok()
+    mac.get(0..6)?.try_into().ok()
 }
 
 enum RunError {
